@@ -1,2 +1,3 @@
 pub mod chunk;
 pub mod head;
+pub mod request;
